@@ -310,6 +310,50 @@ func init() {
 		down.shard = c.Shard
 		down.down = true
 		c.runBFS("bfs-purge-store-down", down, depth, nil)
+		// keys of unusual length (long URLs): the purge must reach the persisted copy whatever the key looks like
+		if c.Want("purge-long-keys") && c.Shard == 0 {
+			st := c.Stat("purge-long-keys", "enumeration")
+			lens := []int{1, 200, 980, 990, 999, 1000, 1001, 1010, 1024, 3000, 6000}
+			st.Bounds = fmt.Sprintf("request-URIs of %v bytes on a store-backed cache: fetch, hit, purge through the admin server, store must be empty, restart, next request must be a fetch", lens)
+			cfg := env.BasicConfig(config.CacheConfig{Store: "fault://c18long"})
+			for _, n := range lens {
+				fs := env.NewFaultStore()
+				fs.Register("fault://c18long")
+				e := getEnv(cfg, "c18-long")
+				freshCaches(cfg)
+				vtime.Set(vtime.Base)
+				e.Respond = func(oc *env.OriginCall) env.OriginResp { return env.Cacheable(oc, 600, "p") }
+				e.Events()
+				uri := "/" + strings.Repeat("k", n-1)
+				if n == 1 {
+					uri = "/"
+				}
+				kase := map[string]int{"uri_bytes": n}
+				r1 := e.Do(env.Req{URI: uri, Rid: "r1"})
+				r2 := e.Do(env.Req{URI: uri, Rid: "r2"})
+				st.Execs++
+				if r1.XStatus != "fetching" || r2.XStatus != "hit" || len(fs.Keys()) != 1 {
+					c.Violation("purge-long-keys", "long-key-not-cached-or-persisted", fmt.Sprintf("URI of %d bytes: labels %s/%s, %d records in the store", n, r1.XStatus, r2.XStatus, len(fs.Keys())), nil, kase, nil)
+					continue
+				}
+				if err := env.AdminPurge(c.Shard, "c1", "GET a.com "+uri); err != nil {
+					c.Violation("purge-long-keys", "purge-error", err.Error(), nil, kase, nil)
+					continue
+				}
+				if ks := fs.Keys(); len(ks) != 0 {
+					c.Violation("purge-long-keys", "persisted-copy-survives-purge", fmt.Sprintf("URI of %d bytes: after the purge the store still holds %d record(s) (key of %d bytes)", n, len(ks), len(ks[0])), nil, kase, nil)
+				}
+				freshCaches(cfg)
+				e.Events()
+				r3 := e.Do(env.Req{URI: uri, Rid: "r3"})
+				an := analyze(e.Events())
+				if r3.XStatus != "fetching" || len(an.Reqs["r3"].Calls) != 1 {
+					c.Violation("purge-long-keys", "purged-entry-served-after-restart", fmt.Sprintf("URI of %d bytes: the request after purge + restart was labelled %s with %d origin contacts", n, r3.XStatus, len(an.Reqs["r3"].Calls)), nil, kase, nil)
+				}
+			}
+			st.States, st.Transitions, st.Nontrivial = st.Execs*5, st.Execs*5, st.Execs
+			st.NOutcomes = int(st.Execs)
+		}
 		c.RunSched(c18Race(c, "purge-vs-fetch-nostore", false, vsched.Bounds{Preempt: pre, Tick: 0, Data: -1, Total: -1}))
 		c.RunSched(c18Race(c, "purge-vs-fetch-store", true, vsched.Bounds{Preempt: pre, Tick: 0, Data: -1, Total: -1}))
 	})
